@@ -174,7 +174,7 @@ def _error_bound(**p):
     if c.capbinds:
         return SKIP('cap binds')
     lim2 = (c.e * c.nrm) ** 2 * (1 + 2e-6) + c.floor2
-    if c.err ** 2 > lim2:
+    if not c.err ** 2 <= lim2:
         return FAIL(f'||Y-Z|| = {c.err / c.nrm:.6e} ||Y|| > e = {c.e:.6e} (ranks {c.rin} -> {c.rk}, ||Y|| = {c.nrm:.3e})')
     return PASS if c.rk != c.rin else TRIVIAL('nothing truncated')
 
@@ -184,7 +184,7 @@ def _rss_optimal(**p):
     if c is None:
         return res
     best2 = sum(tails(s)[min(c.rk[k + 1], len(s))] ** 2 for k, s in enumerate(c.svs))
-    if c.err ** 2 > best2 * (1 + 1e-6) + c.floor2:
+    if not c.err ** 2 <= best2 * (1 + 1e-6) + c.floor2:
         return FAIL(f'||Y-Z|| = {c.err:.6e} > rss of best unfolding errors {math.sqrt(best2):.6e} at ranks {c.rk} '
                     f'(input {c.rin}, e = {c.e:.3e}, ||Y|| = {c.nrm:.3e})')
     return PASS if c.rk != c.rin else TRIVIAL('nothing truncated')
@@ -274,7 +274,7 @@ def d2_exact_rank(n, seed, spec, scale, q, sign, stab, eigh):
     if got != want:
         return FAIL(f'spectrum {s.tolist()} e = {e:.9e}: rank {got}, expected {want}')
     err = float(np.linalg.norm(gen.dense(Z) - gen.dense(Y)))
-    if abs(err - t[want]) > 1e-6 * t[want] + 1e-7 * nrm:
+    if not abs(err - t[want]) <= 1e-6 * t[want] + 1e-7 * nrm:
         return FAIL(f'error {err:.6e} != discarded tail {t[want]:.6e}')
     return PASS
 
@@ -326,7 +326,7 @@ def add_many_sum(n, r, seed, m, e, cap, freq, nums, scale):
     E += e * (np.linalg.norm(S) + E)
     err = float(np.linalg.norm(gen.dense(Z) - S))
     lim = E * (1 + 1e-6) + 64 * d * m * EPS * tot
-    if err > lim:
+    if not err <= lim:
         return FAIL(f'|add_many - dense sum| = {err:.6e} > accumulated bound {lim:.6e} (e = {e}, m = {m}, freq = {freq})')
     return PASS
 
